@@ -195,6 +195,37 @@ theorem exactly_one_resolver_arb_received (env : Env) (a : Arb) (cs : CommitSet)
   rw [close_resolvers env a cs res height choice isLocal hpre hb hne]
   exact resolvers_in_count env cs.key cs.sets height _ _ res hb hwf (by cases isLocal <;> simp) h hm hnd
 
+/-! ## 2b. The chain watcher hands over the commitment that was really spent -/
+
+/-- `commit_set_names_spent_commitment`: the `CommitSet` dispatched by the chain watcher for a
+    spend of commitment `k` has `ConfCommitKey = k`, its HTLC set for `k` is exactly the (index-
+    unique) HTLC set of that commitment in the channel state, our own commitment fires the local
+    and the peer's commitments the remote unilateral-close subscription. Together with the
+    theorems above (stated for `cs.key`) this ties "the commitment that confirmed" to the chain. -/
+theorem commit_set_names_spent_commitment (c : ChanCommits) (k : SetKey) (sub : CloseSub)
+    (cs : CommitSet) (h : commitSetOfSpend c k = some (sub, cs)) :
+    cs.key = k ∧ WFSet (cs.sets.get cs.key) ∧
+    cs.sets.get cs.key = newHtlcSet (match k with
+      | .loc => c.loc | .rem => c.rem | .pend => c.pend.getD []) ∧
+    (sub = .localUnilateral ↔ k = .loc) := by
+  cases k
+  · simp only [commitSetOfSpend, Option.some.injEq, Prod.mk.injEq] at h
+    obtain ⟨rfl, rfl⟩ := h
+    exact ⟨rfl, newHtlcSet_wf _, rfl, by simp⟩
+  · simp only [commitSetOfSpend, Option.some.injEq, Prod.mk.injEq] at h
+    obtain ⟨rfl, rfl⟩ := h
+    exact ⟨rfl, newHtlcSet_wf _, rfl, by simp⟩
+  · cases hp : c.pend with
+    | none => simp [commitSetOfSpend, hp] at h
+    | some p =>
+      simp only [commitSetOfSpend, hp, Option.isSome_some, if_true, Option.some.injEq,
+        Prod.mk.injEq] at h
+      obtain ⟨rfl, rfl⟩ := h
+      exact ⟨rfl, newHtlcSet_wf _, rfl, by simp⟩
+
+example : ∃ sub cs, commitSetOfSpend { loc := [], rem := [], pend := some [default] } .pend
+    = some (sub, cs) := ⟨_, _, rfl⟩
+
 /-! ## 4. No fail-back for an offered HTLC that has an output on the confirmed commitment -/
 
 /-- `no_failback_with_output` (classification level): no `FailDust` / `FailDangling` entry carries
